@@ -35,6 +35,9 @@ def one(name):
             except AnalysisError as ex:
                 und[pid] = str(ex)[:120]
                 continue
+            except Exception as ex:       # an internal error of the machinery is a finding about the machinery, not a crash of the harness
+                und[pid] = f'internal error {type(ex).__name__}: {ex}'[:160]
+                continue
             new = sorted({i.rule for i in instances if i.verdict == 'VIOLATION' and (pid, i.rule, i.construct) not in known})
             if new:
                 det[pid] = new
